@@ -88,6 +88,26 @@ def mc_configs(tier):
     return q
 
 
+def s2i_configs(tier):
+    """(name, model constants, harness args, trace-spec constants, behaviours, depth)"""
+    def cfg(name, r, w, st, nested, n, depth):
+        readers = set(range(1, r + 1))
+        writers = set(range(r + 1, r + w + 1))
+        m = dict(Readers=readers, Writers=writers, Sections=1, Stores=st,
+                 DeliverOn=writers if nested else set(), MaxNested=1 if nested else 0,
+                 MaxDeliveries=nested)
+        h = ["--readers", r, "--sections", 1, "--writers", w, "--stores", st, "--nested", nested]
+        t = dict(Readers=readers, Writers=writers, Sections=1, Stores=st,
+                 DeliverOn=readers | writers, MaxNested=2, MaxDeliveries=100)
+        return (name, m, h, t, n, depth)
+    T = tier == "thorough"
+    q = [cfg("r1w1s2_nested", 1, 1, 2, 1, 3000 if T else 300, 80),
+         cfg("r2w1s2", 2, 1, 2, 0, 3000 if T else 200, 80)]
+    if T:
+        q.append(cfg("r2w2s1_nested", 2, 2, 1, 1, 3000, 120))
+    return q
+
+
 def scenarios(tier):
     """(name, harness args, trace-spec constants)"""
     def sc(name, r, sec, w, st, extra):
@@ -160,6 +180,26 @@ def run_halflock(chk, tier, want_liveness=False):
     todo = list(scenarios(tier))
     if pid == "C18":
         todo += [(n, a, None) for n, a in chain_scenarios(tier)]
+    # 2b. spec -> impl: behaviours of the fine model (TLC random simulation) forced onto the real code
+    if not stale and pid in ("C01", "C18"):
+        import spec2impl
+        for name, mcfg, hargs, tconsts, n, depth in s2i_configs(tier):
+            c = dict(mcfg)
+            c.update(consts)
+            behs, out_txt, wall = spec2impl.behaviours(c, n, depth, "%s_s2i_%s" % (pid, name),
+                                                       seed=chk.seed)
+            if behs is None:
+                raise ToolError("spec->impl %s: TLC simulation stopped on a violation that the "
+                                "exhaustive model checks above did not report" % name)
+            scheds = sorted(set(x for x in (spec2impl.schedule_of(b) for b in behs) if x))
+            rf = os.path.join(WORK, "hl_%s_s2i_%s.replay.txt" % (pid, name))
+            with open(rf, "w") as f:
+                f.write("\n".join(scheds) + "\n")
+            chk.extra.setdefault("spec_to_impl", []).append(
+                {"config": name, "behaviours_simulated": len(behs), "distinct_forceable_schedules": len(scheds),
+                 "tlc_wall_s": round(wall, 1)})
+            if scheds:
+                todo.append(("s2i_" + name, hargs + ["--replay-file", rf], tconsts))
     for name, args, tconsts in todo:
         out = os.path.join(WORK, "hl_%s_%s" % (chk.pid, name))
         fine_max = 600 if tier == "quick" else 5000
@@ -171,6 +211,10 @@ def run_halflock(chk, tier, want_liveness=False):
             chk.exhaustive = False
         if stats["nondeterminism"]:
             chk.note("scenario %s: schedule enumeration saw nondeterminism" % name)
+        if stats.get("replay_diverged"):
+            chk.note("spec->impl %s: %d of %d model behaviours could not be forced onto the code "
+                     "(first: %s): fine model stale" % (name, stats["replay_diverged"],
+                                                        stats["schedules"], stats["replay_first_divergence"][:200]))
         abs_path, fine_path = out + ".abs.ndjson", out + ".fine.ndjson"
         rej, ok_lines = chk.validate_runs("TraceHalfLockAbs.tla", abs_path, "abs_" + name,
                                           classify=classify_abs,
